@@ -63,6 +63,17 @@ pub(super) fn move_while_borrowed(
     let mut node2captured_nodes: HashMap<NodeIndex, IndexSet<NodeIndex>> = HashMap::new();
 
     while let Some(node_index) = nodes_to_visit.pop_front() {
+        if visited_nodes.contains(&node_index) {
+            continue;
+        }
+        // What a node captures is derived from what its dependencies capture: a node must be
+        // visited after all of them. If one is still missing, it will enqueue this node again.
+        if call_graph
+            .neighbors_directed(node_index, Direction::Incoming)
+            .any(|dependency_index| !visited_nodes.contains(&dependency_index))
+        {
+            continue;
+        }
         visited_nodes.insert(node_index);
         let node = &call_graph[node_index];
 
